@@ -15,7 +15,7 @@ def run(ses):
     from pyvc import frame as _frame
 
     _frame.purity_obligation(ses)
-    records.check_unit(ses, "leader", ["table", "frame"])
+    records.check_unit(ses, "leader", ["table", "frame", "wf"])
     from props import analyses
 
     analyses.bounded_tables(ses, ('leader',), 12 if ses.tier == "quick" else 300)
